@@ -4,70 +4,16 @@ import CasbinV.Props.C06u
 # C09 (batch update) — `update_policies` keeps the store mirroring memory
 
 Memory replaces in place, position by position (`acc.set (l.idxOf old) new`); the faithful adapter rewrites every stored
-rule that is the old side of a pair.  With a duplicate-free rule list and pairwise different old rules these coincide.
+rule that is the old side of a pair.  With a duplicate-free rule list and pairwise different old rules these coincide
+(`C06.foldl_set_eq_map`), and a batch naming an old rule twice is refused.
 -/
 namespace Casbin.Enf.C09
 open Casbin Casbin.Enf Casbin.Policy Casbin.Policy.C06
 
-/-- position-wise description of the in-place replacement -/
-theorem foldl_set_getElem? (l : List Rule) (hd : l.Nodup) (ps : List (Rule × Rule)) (acc : List Rule)
-    (hin : ∀ p ∈ ps, p.1 ∈ l) (hnd : (ps.map (·.1)).Nodup) (hlen : acc.length = l.length)
-    (i : Nat) (hi : i < l.length) :
-    (ps.foldl (fun acc (p : Rule × Rule) => acc.set (l.idxOf p.1) p.2) acc)[i]? =
-      match ps.find? (·.1 == l[i]) with
-      | some p => some p.2
-      | none => acc[i]? := by
-  induction ps generalizing acc with
-  | nil => simp
-  | cons p ps ih =>
-    simp only [List.foldl_cons]
-    have hnd' : (ps.map (·.1)).Nodup := (List.nodup_cons.mp (by simpa using hnd)).2
-    have hp1 : p.1 ∉ ps.map (·.1) := (List.nodup_cons.mp (by simpa using hnd)).1
-    rw [ih (acc.set (l.idxOf p.1) p.2) (fun q hq => hin q (by simp [hq])) hnd' (by simp [hlen])]
-    have hpl : p.1 ∈ l := hin p (by simp)
-    by_cases hpi : p.1 = l[i]
-    · -- this pair rewrites position i; no later pair has the same old rule
-      have hnone : ps.find? (·.1 == l[i]) = none := by
-        apply List.find?_eq_none.mpr
-        intro q hq hc
-        have : q.1 = l[i] := by simpa using hc
-        exact hp1 (by rw [hpi, ← this]; exact List.mem_map_of_mem (f := (·.1)) hq)
-      simp only [hnone, List.find?_cons, hpi, beq_self_eq_true]
-      rw [List.Nodup.idxOf_getElem hd i hi, List.getElem?_set_self (by omega)]
-    · have hne : l.idxOf p.1 ≠ i := by
-        intro hc
-        apply hpi
-        have := List.getElem_idxOf (List.idxOf_lt_length_of_mem hpl)
-        simp only [hc] at this
-        exact this.symm
-      have hb : (p.1 == l[i]) = false := by simpa using hpi
-      simp only [List.find?_cons, hb]
-      rw [List.getElem?_set_ne hne]
-
-/-- the in-place batch replacement equals rewriting every rule that is the old side of a pair -/
-theorem foldl_set_eq_map (l : List Rule) (hd : l.Nodup) (olds news : List Rule)
-    (hin : ∀ o ∈ olds, o ∈ l) (hnd : olds.Nodup) (hlen : olds.length = news.length) :
-    (olds.zip news).foldl (fun acc (p : Rule × Rule) => acc.set (l.idxOf p.1) p.2) l =
-      l.map fun x => match (olds.zip news).find? (·.1 == x) with | some (_, n) => n | none => x := by
-  have hfst : (olds.zip news).map (·.1) = olds := by
-    rw [List.map_fst_zip]; omega
-  apply List.ext_getElem?
-  intro i
-  by_cases hi : i < l.length
-  · rw [foldl_set_getElem? l hd (olds.zip news) l
-      (fun p hp => hin p.1 (List.of_mem_zip hp).1) (by rw [hfst]; exact hnd) rfl i hi]
-    rw [List.getElem?_map, List.getElem?_eq_getElem hi]
-    simp only [Option.map_some]
-    cases (olds.zip news).find? (·.1 == l[i]) with
-    | none => rfl
-    | some p => rfl
-  · have h1 : ((olds.zip news).foldl (fun acc (p : Rule × Rule) => acc.set (l.idxOf p.1) p.2) l).length = l.length :=
-      foldl_set_length l _ l
-    rw [List.getElem?_eq_none (by omega), List.getElem?_eq_none (by simp; omega)]
-
-/-- **`update_policies` keeps the mirror** (pairwise different old rules) -/
+/-- **`update_policies` keeps the mirror**, whatever the batch: a call naming an old rule twice is refused before the
+    adapter is told anything (repaired `Policy.update_policies`), so a successful call has pairwise different old rules -/
 theorem mirror_updateMany (cfg : Cfg) (s : St) (olds news : List Rule) (had : cfg.hasAdapter = true)
-    (hsave : s.autoSave = true) (hm : Mirror s) (hd : s.pol.p.Nodup) (hnd : olds.Nodup) :
+    (hsave : s.autoSave = true) (hm : Mirror s) (hd : s.pol.p.Nodup) :
     Mirror (step cfg s (.updateMany olds news)).1 := by
   unfold Mirror at *
   simp only [step]
@@ -79,7 +25,7 @@ theorem mirror_updateMany (cfg : Cfg) (s : St) (olds news : List Rule) (had : cf
     | false => simpa using hm
     | true =>
       obtain ⟨_, h2⟩ := updateMany_spec s.pol.p olds news l true hd hu
-      obtain ⟨_, _, hlen, hin, hl⟩ := h2 rfl
+      obtain ⟨_, _, hlen, hin, hl, hnd⟩ := h2 rfl
       simp only [Bool.not_true, Bool.false_eq_true, ↓reduceIte]
       have hp := persist_store cfg { s with pol := s.pol.set .p l } (.updatePolicies .p olds news)
         (updOnly cfg (.forUpdatePolicies olds news))
@@ -88,11 +34,15 @@ theorem mirror_updateMany (cfg : Cfg) (s : St) (olds news : List Rule) (had : cf
       rw [hm, hl, foldl_set_eq_map s.pol.p hd olds news hin hnd hlen]
       rfl
 
-/-- with the same old rule named twice the two sides differ (memory: the last pair wins, the adapter: the first) - the
-    reason for the hypothesis; the property's histories do not pin down what a store does with such a call -/
+/-- non-vacuity: a successful batch update through the adapter; and the call naming the same old rule twice (memory used
+    to keep the last pair, the adapter the first) is refused with memory and store untouched -/
 example : (step { gCount := 2, g2Count := 0, hasAdapter := true, hasWatcher := false, watcherEx := false, watcherUpd := false }
-      { pol := { p := [["a"], ["b"]] }, store := { p := [["a"], ["b"]] } } (.updateMany [["a"], ["a"]] [["x"], ["y"]])).1.pol.p = [["y"], ["b"]] ∧
+      { pol := { p := [["a"], ["b"]] }, store := { p := [["a"], ["b"]] } } (.updateMany [["a"], ["b"]] [["b"], ["c"]])).1.pol.p = [["b"], ["c"]] ∧
     (step { gCount := 2, g2Count := 0, hasAdapter := true, hasWatcher := false, watcherEx := false, watcherUpd := false }
-      { pol := { p := [["a"], ["b"]] }, store := { p := [["a"], ["b"]] } } (.updateMany [["a"], ["a"]] [["x"], ["y"]])).1.store.p = [["x"], ["b"]] := by decide
+      { pol := { p := [["a"], ["b"]] }, store := { p := [["a"], ["b"]] } } (.updateMany [["a"], ["b"]] [["b"], ["c"]])).1.store.p = [["b"], ["c"]] := by decide
+example : (step { gCount := 2, g2Count := 0, hasAdapter := true, hasWatcher := false, watcherEx := false, watcherUpd := false }
+      { pol := { p := [["a"], ["b"]] }, store := { p := [["a"], ["b"]] } } (.updateMany [["a"], ["a"]] [["x"], ["y"]])).1.pol.p = [["a"], ["b"]] ∧
+    (step { gCount := 2, g2Count := 0, hasAdapter := true, hasWatcher := false, watcherEx := false, watcherUpd := false }
+      { pol := { p := [["a"], ["b"]] }, store := { p := [["a"], ["b"]] } } (.updateMany [["a"], ["a"]] [["x"], ["y"]])).1.store.p = [["a"], ["b"]] := by decide
 
 end Casbin.Enf.C09
